@@ -4,5 +4,8 @@
 (* and StarveLive).                                                            *)
 EXTENDS Starve
 CONSTANT Stuck
+\* inputs that run into an internal limit of the coder while more input is present (the caller keeps offering both)
+StopInputs == {Mk(<<FBuf(2, "OK"), FSym(1, 1, "OK"), FSym(2, 2, "OK"), FStop>>, h, Opt0) : h \in 5..8}
+              \cup {Mk(<<FByte(1, 0, TRUE, "OK"), FStop>>, 3, Opt0)}
 NoteInputs == {[i EXCEPT !.opt.noteStuck = Stuck] : i \in XzNotes}
 =============================================================================
